@@ -15,6 +15,7 @@
 package pubsub
 
 import (
+	"github.com/echovault/sugardb/internal/verifhook"
 	"github.com/gobwas/glob"
 	"github.com/tidwall/resp"
 	"log"
@@ -67,11 +68,14 @@ func (ch *Channel) Start() {
 	go func() {
 		for {
 			message := <-*ch.messageChan
+			verifhook.Point("pubsub.dispatch.begin")
 
 			ch.subscribersRWMut.RLock()
 
 			for _, conn := range ch.subscribers {
+				verifhook.Point("pubsub.write.spawn")
 				go func(conn *resp.Conn) {
+					verifhook.Point("pubsub.write.begin")
 					if err := conn.WriteArray([]resp.Value{
 						resp.StringValue("message"),
 						resp.StringValue(ch.name),
@@ -79,10 +83,12 @@ func (ch *Channel) Start() {
 					}); err != nil {
 						log.Println(err)
 					}
+					verifhook.Point("pubsub.write.end")
 				}(conn)
 			}
 
 			ch.subscribersRWMut.RUnlock()
+			verifhook.Point("pubsub.dispatch.end")
 		}
 	}()
 }
@@ -116,6 +122,7 @@ func (ch *Channel) Unsubscribe(conn *net.Conn) bool {
 }
 
 func (ch *Channel) Publish(message string) {
+	verifhook.Point("pubsub.publish.enqueue")
 	*ch.messageChan <- message
 }
 
